@@ -31,6 +31,7 @@ def run(ck, fb):
     r10g(ck, fb)
     r10h(ck, fb)
     r10i(ck, fb)
+    r10j(ck, fb)
 
 
 def r10a(ck, fb):
@@ -408,3 +409,41 @@ def r10i(ck, fb, R='R10i'):
             ck.require(not ex, R, 'notify:visits-every-id', b.where(ex[0][0]) if ex else s0.where(),
                        'the loop over the ids registered for the key can be left before the end of the list (edges %s): the remaining long-polls of the key are '
                        'not answered for this change' % ex, 'no early exit')
+
+
+def r10j(ck, fb, R='R10j'):
+    ck.rule(R, 'a listener is registered for the key it names: the `Listening-Configs` value is dataId ^2 group ^2 md5 [^2 tenant] ^1, and the md5 of a '
+               'config that does not exist yet is the EMPTY word. In ListenerItem::decode_listener_items / decode_listener_change_keys a word that ends at '
+               'a ^2 separator is recorded whether or not it is empty: the push onto the word list is decided only by comparisons with constants (the '
+               'separator byte, the number of words so far) and by the loop itself. Dropping an empty word shifts the tenant into the md5 position: a '
+               'long-poll on a not-yet-published key of a non-default namespace is answered at once for the wrong key and never registered for its own '
+               '- the first publish goes unreported')
+    LI = 'rnacos::config::core::ListenerItem::'
+    n = 0
+    for fn in ('decode_listener_items', 'decode_listener_change_keys'):
+        b = ck.body(LI + fn, R)
+        if not b:
+            continue
+        pushes = [s0 for s0 in b.calls(r'Vec::<T, A>::push$') if 'String' in (b.local_ty(s0.args[1]['mv'] if isinstance(s0.args[1], dict) and 'mv' in s0.args[1] and isinstance(s0.args[1]['mv'], int) else -1) or '')
+                  or 'std::string::String' in str(s0.gargs)]
+        pushes = pushes or [s0 for s0 in b.calls(r'Vec::<std::string::String>::push$|Vec::<T, A>::push$') if any('String' in g for g in (s0.gargs or []))]
+        ck.floor(R, 'word pushes in %s' % fn, len(pushes), 1)
+        for s0 in pushes:
+            n += 1
+            bad = None
+            for a in cfg.guard_atoms(b, s0.bb):
+                if a[0] == 'cmp':
+                    if a[2]['k'] != 'const' and a[3]['k'] != 'const':
+                        bad = 'a comparison of two values (%s %s %s)' % (cfg.fmt_desc(a[2]), a[1], cfg.fmt_desc(a[3]))
+                elif a[0] in ('variant', 'notvariant'):
+                    root = a[3].get('root', a[3]) if isinstance(a[3], dict) else {}
+                    d0 = a[3] if a[3].get('k') == 'call' else root
+                    nm = cfg.callee_name(d0['term']) if d0.get('k') == 'call' else ''
+                    if not (nm or '').endswith('::next'):
+                        bad = 'the answer of %s' % ((nm or 'a test').split('::')[-1])
+                elif a[0] == 'call' and not (a[1] or '').endswith('::next'):
+                    bad = 'the answer of %s' % ((a[1] or '').split('::')[-1])
+            ck.require(bad is None, R, '%s:empty-word-is-a-word' % fn, s0.where(),
+                       'whether a word of the listener string is recorded depends on %s: an empty word (the md5 of a config that does not exist yet) is dropped and '
+                       'the words behind it move up - the tenant is read as md5, the key is looked up in the default namespace' % bad, 'decided by constants only')
+    ck.floor(R, 'word pushes judged', n, 2)
